@@ -522,3 +522,57 @@ Proof.
   intros c j Hc Hlt. destruct (of_N_rep c j Hc Hlt) as (F & _ & V). split; [exact F|].
   rewrite V, <- (Z.add_0_r (Z.of_N j)), <- dy_shift, dy_int. reflexivity.
 Qed.
+
+(** the conversion of [m * 2^e] does not depend on how the number is split
+    into mantissa and exponent (the driver converts the oracle's pair [(m, e)]
+    with [f64_norm_int]) *)
+Theorem norm_int_shift : forall m e : N, f64_norm_int (Z.of_N m) (Z.of_N e) = f64_of_N (m * 2 ^ e).
+Proof.
+  intros m e.
+  pose proof (binary_normalize_correct 53 1024 Hprec53 Hmax1024 mode_NE (Z.of_N m) (Z.of_N e) false) as C1.
+  pose proof (binary_normalize_correct 53 1024 Hprec53 Hmax1024 mode_NE (Z.of_N (m * 2 ^ e)) 0 false) as C2.
+  change (binary_normalize 53 1024 Hprec53 Hmax1024 mode_NE (Z.of_N m) (Z.of_N e) false)
+    with (f64_norm_int (Z.of_N m) (Z.of_N e)) in C1.
+  change (binary_normalize 53 1024 Hprec53 Hmax1024 mode_NE (Z.of_N (m * 2 ^ e)) 0 false) with (f64_of_N (m * 2 ^ e)) in C2.
+  change (F2R {| Fnum := Z.of_N m; Fexp := Z.of_N e |}) with (dy m (Z.of_N e)) in C1.
+  change (F2R {| Fnum := Z.of_N (m * 2 ^ e); Fexp := 0 |}) with (dy (m * 2 ^ e) 0) in C2.
+  rewrite dy_shift, Z.add_0_r in C2.
+  destruct (Rlt_bool _ _).
+  - destruct C1 as (V1 & F1 & S1). destruct C2 as (V2 & F2 & S2).
+    apply B2R_Bsign_inj; congruence.
+  - apply B2FF_inj. congruence.
+Qed.
+
+(** ** Examples *)
+Example ex_f64c_ops :
+  f64c_bits_from_u32 1 = 0x3ff0000000000000 /\
+  f64c_bits_shl (f64c_bits_from_u32 1) 1023 = 0x7fe0000000000000 /\
+  f64c_bits_shl (f64c_bits_from_u32 1) 1024 = 0x7ff0000000000000 /\
+  f64c_bits_shl 0 5000 = 0 /\
+  f64c_bits_shr (f64c_bits_from_u32 1) 1074 = 1 /\
+  f64c_bits_shr (f64c_bits_from_u32 1) 1075 = 0 /\
+  f64c_bits_add (f64c_bits_from_u32 1) (f64c_bits_from_u32 2) = 0x4008000000000000 /\
+  f64c_bits_add 0x4340000000000000 (f64c_bits_from_u32 1) = 0x4340000000000000 /\
+  f64c_bits_sub (f64c_bits_from_u32 1) (f64c_bits_from_u32 2) = 0xbff0000000000000 /\
+  f64c_bits_is_nan (f64c_bits_sub 0x7ff0000000000000 0x7ff0000000000000) = true /\
+  f64c_bits_of_N (2 ^ 53 + 1) = 0x4340000000000000.
+Proof. vm_compute. repeat split; reflexivity. Qed.
+
+(** the two cases of an exact sum / an exact scaling in one statement *)
+Theorem frep_add_cases : forall x y a b j, frep x a j -> frep y b j -> (a + b <= 2 ^ 53)%N -> (-1074 <= j)%Z ->
+  ((dy (a + b) j < bpow radix2 1024)%R -> frep (f64c_add x y) (a + b) j) /\
+  ((bpow radix2 1024 <= dy (a + b) j)%R -> f64c_add x y = f64c_pos_inf).
+Proof.
+  intros x y a b j Hx Hy Hc Hj. split; intros Hb.
+  - apply frep_add; assumption.
+  - apply (frep_add_ovf x y a b j); assumption.
+Qed.
+
+Theorem frep_shl_cases : forall x c j (k : N), frep x c j -> (c <= 2 ^ 53)%N -> (-1074 <= j)%Z -> (k <= 1023)%N ->
+  ((dy c (j + Z.of_N k) < bpow radix2 1024)%R -> frep (f64c_shl x k) c (j + Z.of_N k)) /\
+  (c <> 0%N -> (bpow radix2 1024 <= dy c (j + Z.of_N k))%R -> f64c_shl x k = f64c_pos_inf).
+Proof.
+  intros x c j k Hx Hc Hj Hk. split.
+  - intros Hb. apply frep_shl; assumption.
+  - intros Hnz Hb. apply (frep_shl_ovf x c j k Hx Hc Hj Hnz); [intros _; exact Hb | lia].
+Qed.
